@@ -15,6 +15,7 @@ import os
 import shutil
 import sys
 import tempfile
+import warnings
 
 import numpy as np
 
@@ -118,7 +119,7 @@ def mat(a):
     if k in ('X', 'C'):
         return a[1]
     if k == 'I':
-        return a[1]
+        return np.int64(a[1]) if len(a) > 2 and a[2] == 'i64' else a[1]
     if k == 'T':
         return (a[1], a[2])
     raise ValueError(a)
@@ -147,10 +148,33 @@ def obj_tok(o, kind):
     raise ValueError(kind)
 
 
-def arr_tok(x):
-    a = np.array(x, np.float64)
+_ERRS = ('TypeError', 'ValueError', 'KeyError', 'AttributeError', 'RuntimeError')
+
+
+def _ek(e):
+    k = exc_kind(e)
+    return k if k in _ERRS else 'TypeError'
+
+
+def arr_tok(a):
     bits = a.reshape(-1).view(np.uint64).tolist() if a.size else []
     return '%d %s %d %s' % (a.ndim, ' '.join(str(s) for s in a.shape), len(bits), ' '.join(str(b) for b in bits))
+
+
+def raw_tok(x):
+    """one object of a rate dictionary as the model receives it: the outcome of np.array(x, float64) and of float(x)
+    (NumPy / float are external to the model; *where* the code applies them is what the model transcribes)"""
+    with warnings.catch_warnings():
+        warnings.simplefilter('ignore')
+        try:
+            at = 'A ' + arr_tok(np.array(x, np.float64))
+        except Exception as e:  # noqa
+            at = 'E ' + _ek(e)
+        try:
+            ft = 'F %d' % np.array(float(x), np.float64).reshape(1).view(np.uint64)[0]
+        except Exception as e:  # noqa
+            ft = 'E ' + _ek(e)
+    return at + ' ' + ft
 
 
 def rate_tok(rate, layout):
@@ -158,11 +182,46 @@ def rate_tok(rate, layout):
         rate = {'value': rate}
     if not isinstance(rate, dict):
         return '0'
-    return '%d %s' % (len(rate), ' '.join('%s %s' % (hexs(k), arr_tok(v)) for k, v in rate.items()))
+    return '%d %s' % (len(rate), ' '.join('%s %s' % (hexs(str(k)), raw_tok(v)) for k, v in rate.items()))
+
+
+# descriptors of values that JSON cannot carry (replay files): {'__': tag, 'v': payload}
+def mat_val(v):
+    if isinstance(v, dict) and '__' in v:
+        t, x = v['__'], v.get('v')
+        if t == 'f32':
+            return np.float32(x)
+        if t == 'i64':
+            return np.int64(x)
+        if t == 'nd0':
+            return np.array(x)
+        if t == 'nd':
+            return np.array(x, dtype=v.get('dtype'))
+        if t == 'obj':
+            return np.array(x, dtype=object)
+        if t == 'set':
+            return set(x)
+        if t == 'cplx':
+            return [complex(a, b) for a, b in x]
+        if t == 'bytes':
+            return x.encode()
+        raise ValueError(v)
+    return v
+
+
+def mat_rate(rate):
+    if isinstance(rate, dict) and '__' not in rate:
+        return {k: mat_val(v) for k, v in rate.items()}
+    return mat_val(rate)
 
 
 def canon_arr(x):
-    a = np.array(x, np.float64)
+    with warnings.catch_warnings():
+        warnings.simplefilter('ignore')
+        try:
+            a = np.array(x, np.float64)
+        except Exception:  # noqa   (only for entries the repository stores verbatim: extra keys of beam stopping files)
+            return ('verbatim', repr(x))
     return (tuple(a.shape), tuple(a.reshape(-1).view(np.uint64).tolist()) if a.size else ())
 
 
@@ -173,13 +232,29 @@ def canon_val(d):
 
 
 # what the matching getter is expected to return for a rate dictionary that was written (the property's "arrays most
-# recently written"): the adf11 writers take the table under 'rates' and the readers return it under 'rate'
-def stored(rate, layout):
-    if layout == 'adf11':
-        return canon_val({'ne': rate['ne'], 'te': rate['te'], 'rate': rate['rates']})
-    if layout == 'wl':
-        return canon_val(float(rate))
-    return canon_val(rate)
+# recently written"): arrays as float64 arrays, scalars as floats; the adf11 writers take the table under 'rates' and the
+# readers return it under 'rate'; beam stopping / population files hold the whole dictionary that was passed
+LAYOUT = {'adf11': (['ne', 'te', 'rates'], []), 'pec': (['ne', 'te', 'rate'], []), 'pec3': (['ne', 'te', 'td', 'rate'], []),
+          'bcx': (['eb', 'ti', 'ni', 'z', 'b', 'qeb', 'qti', 'qni', 'qz', 'qb'], ['qref']),
+          'beam': (['e', 'n', 't', 'sen', 'st'], ['eref', 'nref', 'tref', 'sref'])}
+
+
+def stored(rate, layout, whole=False):
+    with warnings.catch_warnings():
+        warnings.simplefilter('ignore')
+        if layout == 'wl':
+            return canon_val(float(rate))
+        arrays, scalars = LAYOUT[layout]
+        out = {}
+        for k in arrays:
+            out['rate' if k == 'rates' else k] = canon_arr(np.array(rate[k], np.float64))
+        for k in scalars:
+            out[k] = canon_arr(float(rate[k]))
+        if whole:
+            for k, v in rate.items():
+                if k not in out:
+                    out[k] = canon_arr(json.loads(json.dumps(v)))
+        return out
 
 
 # --------------------------------------------------------------------------------------------------------------------
@@ -309,7 +384,7 @@ def build_nested(ufam, entries):
     nested = {}
     for path, rate in entries:
         objs = [mat(a) for a in path]
-        set_nested(nested, objs, copy.deepcopy(rate))
+        set_nested(nested, objs, mat_rate(copy.deepcopy(rate)))
     return nested
 
 
@@ -326,6 +401,9 @@ def add_call(gfam, path_objs, rate):
     return list(path_objs) + [rate]
 
 
+NO_RATE = object()
+
+
 def add_tok(gfam, path_objs, rate, documented=False):
     """model line payload: <n> {arg} <items>; arguments in the python positional order of add_<family>"""
     ufam = GETF[gfam][2]
@@ -339,7 +417,7 @@ def add_tok(gfam, path_objs, rate, documented=False):
         d, dq, r, rq = path_objs
         args = [(d, 'sym'), (dq, 'num'), (r, 'sym')]
         if documented:      # the documented call passes the rate dictionary itself: its keys play the role of charges
-            items = [([(k, 'num')], None) for k in rate]
+            items = [([(k, 'num')], NO_RATE) for k in rate]
         else:
             items = [([(rq, 'num')], rate)]
     elif gfam in PEC_CLASS:
@@ -352,7 +430,7 @@ def add_tok(gfam, path_objs, rate, documented=False):
     for key, r in items:
         parts.append(str(len(key)))
         parts += [obj_tok(o, k) for o, k in key]
-        parts.append(rate_tok(r, u['rate']) if r is not None else '0')
+        parts.append(rate_tok(r, u['rate']) if r is not NO_RATE else '0')
     return ' '.join(parts)
 
 
@@ -468,21 +546,22 @@ PARSER_OF = {'adf11scd': 'parse_adf11', 'adf11acd': 'parse_adf11', 'adf11ccd': '
 
 
 class Patched:
-    """install.py with its parser and file locator replaced, and repository.update_* wrapped by recorders"""
+    """repository.update_* wrapped by recorders; with `parsed_for`, install.py's parsers and file locator are replaced too"""
 
     def __init__(self, parsed_for):
-        self.parsed_for = parsed_for      # callable(parser name, args) -> object
+        self.parsed_for = parsed_for      # callable(parser name, args) -> object, or None: real parsers
         self.calls = []
 
     def __enter__(self):
         from cherab.openadas import install, repository
         self.install, self.repository = install, repository
         self.saved = {}
-        for p in set(PARSER_OF.values()):
-            self.saved[('i', p)] = getattr(install, p)
-            setattr(install, p, (lambda name: lambda *a, **k: self.parsed_for(name, a, k))(p))
-        self.saved[('i', '_locate_adas_file')] = install._locate_adas_file
-        install._locate_adas_file = lambda file_path, download=False, adas_path=None, repository_path=None: file_path
+        if self.parsed_for is not None:
+            for p in set(PARSER_OF.values()):
+                self.saved[('i', p)] = getattr(install, p)
+                setattr(install, p, (lambda name: lambda *a, **k: self.parsed_for(name, a, k))(p))
+            self.saved[('i', '_locate_adas_file')] = install._locate_adas_file
+            install._locate_adas_file = lambda file_path, download=False, adas_path=None, repository_path=None: file_path
         for name in repo_paths.UPD:
             real = getattr(repository, name)
             self.saved[('r', name)] = real
@@ -502,7 +581,8 @@ class Patched:
 # --------------------------------------------------------------------------------------------------------------------
 # rate generators
 # --------------------------------------------------------------------------------------------------------------------
-EDGE = [0.0, -0.0, 5e-324, 1e-300, 1e300, -1e300, 1.0, 0.1, 1e19, 2.2250738585072014e-308, 1.7976931348623157e308]
+EDGE = [0.0, -0.0, 5e-324, 1e-300, 1e300, -1e300, 1.0, 0.1, 1e19, 2.2250738585072014e-308, 1.7976931348623157e308,
+        float('inf'), float('-inf'), float('nan')]
 
 
 def mk_rate(layout, base, shape):
@@ -664,9 +744,149 @@ def write_adf15(path, blocks):
 
 
 # --------------------------------------------------------------------------------------------------------------------
+# minimal synthetic ADF files for every install_* (fixed-column text the real parsers accept)
+# --------------------------------------------------------------------------------------------------------------------
+
+def _cols(vals, per_line, fmt='%9.3E'):
+    """lines of 10-character fields: one ignored character, then 9 characters of value"""
+    out = []
+    for i in range(0, len(vals), per_line):
+        out.append(''.join(' ' + (fmt % v) for v in vals[i:i + per_line]))
+    return out
+
+
+def write_adf11(path, element, charges, n, m, base):
+    lines = ['%5d%5d%5d%5d%5d     /%-18s  /SYNTHETIC C06' % (element.atomic_number, n, m, min(charges), max(charges), element.name.upper()),
+             '-' * 60,
+             ' ' + ' '.join('%8.5f' % (8.0 + i) for i in range(n)),
+             ' ' + ' '.join('%8.5f' % (0.5 * j) for j in range(m))]
+    for z1 in charges:
+        lines.append('-' * 20 + '/ IPRT= 1  / IGRD= 1  / Z1= %d   / DATE= 01/01/01' % z1)
+        for j in range(m):
+            lines.append(' ' + ' '.join('%9.5f' % (-(10.0 + base + z1 + 0.25 * j + 0.0625 * i)) for i in range(n)))
+    lines += ['C' + '-' * 60, 'C', 'C  synthetic', 'C' + '-' * 60]
+    _write(path, lines)
+
+
+def write_adf12(path, transitions, base):
+    lines = ['%5d' % len(transitions)]
+    for k, (up, lo) in enumerate(transitions):
+        lines.append(' ' * 38 + '%2d-%2d' % (up, lo))
+        lines += _cols([(base + 1 + k) * 1e-9], 6)
+        lines += _cols([40000.0, 100.0, 1e13, 2.0, 3.0], 6)
+        nb, nt, nd, nz, nm = 3, 2, 2, 1, 2
+        lines += _cols([nb, nt, nd, nz, nm], 6, '%9d')
+        pad = lambda v, n: list(v) + [0.0] * (n - len(v))
+        lines += _cols(pad([1e4 * (i + 1) for i in range(nb)], 24), 6)
+        lines += _cols(pad([(base + 1 + i) * 1e-9 for i in range(nb)], 24), 6)
+        lines += _cols(pad([10.0 * (i + 1) for i in range(nt)], 12), 6)
+        lines += _cols(pad([(base + 2 + i) * 1e-9 for i in range(nt)], 12), 6)
+        lines += _cols(pad([1e12 * (i + 1) for i in range(nd)], 24), 6)
+        lines += _cols(pad([(base + 3 + i) * 1e-9 for i in range(nd)], 24), 6)
+        lines += _cols(pad([1.0 + i for i in range(nz)], 12), 6)
+        lines += _cols(pad([(base + 4 + i) * 1e-9 for i in range(nz)], 12), 6)
+        lines += _cols(pad([1.0 + i for i in range(nm)], 12), 6)
+        lines += _cols(pad([(base + 5 + i) * 1e-9 for i in range(nm)], 12), 6)
+    _write(path, lines)
+
+
+def _place(width, items):
+    l = [' '] * width
+    for col, text in items:
+        l[col:col + len(text)] = list(text)
+    return ''.join(l)
+
+
+def write_adf2x(path, charge, base, neb=3, ndt=2, ntt=3):
+    lines = [_place(60, [(3, '%2d' % charge), (13, '%9.3E' % ((base + 1) * 1e-7)), (29, 'XX'), (38, '01/01/01'), (53, 'C06')]),
+             '-' * 60,
+             _place(40, [(1, '%4d' % neb), (6, '%4d' % ndt), (17, '%9.3E' % 2000.0)]),
+             '-' * 60]
+    lines += _cols([5e3 * (i + 1) for i in range(neb)], 8)
+    lines += _cols([1e13 * (i + 1) for i in range(ndt)], 8)
+    lines.append('-' * 60)
+    for j in range(ndt):
+        lines += _cols([(base + 1 + i + 0.5 * j) * 1e-7 for i in range(neb)], 8)
+    lines.append('-' * 60)
+    lines.append(_place(50, [(1, '%4d' % ntt), (12, '%9.3E' % 65000.0), (28, '%9.3E' % 6e13)]))
+    lines.append('-' * 60)
+    lines += _cols([100.0 * (i + 1) for i in range(ntt)], 8)
+    lines.append('-' * 60)
+    lines += _cols([(base + 2 + i) * 1e-7 for i in range(ntt)], 8)
+    _write(path, lines)
+
+
+def write_adf15_any(path, element, charge, blocks):
+    """blocks as for write_adf15; the index in the comment section is written in the format parse_adf15 will look for:
+    hydrogen (N= u - N= l), hydrogen-like (u - l) or full (configuration table + level ids)"""
+    from cherab.core.atomic import hydrogen
+    out = ['   %d    /SYNTHETIC ADF15 FOR C06/' % len(blocks)]
+    for i, (u, l, typ, wl, ne, te, tab) in enumerate(blocks, 1):
+        out.append(' %9.1f A %4d %4d /FILMEM = bnd     /TYPE = %s  /INDM = T/ISEL =  %4d' % (wl, len(ne), len(te), typ, i))
+        out.append(' '.join('%.5E' % v for v in ne))
+        out.append(' '.join('%.5E' % v for v in te))
+        for row in tab:
+            out.append(' '.join('%.5E' % v for v in row))
+    out.append('C' + '-' * 70)
+    out.append('C')
+    if element == hydrogen:
+        fmt = 'h'
+    elif element.atomic_number - charge == 1:
+        fmt = 'hl'
+    else:
+        fmt = 'full'
+        out.append('C  Configuration          (2S+1)L(w-1/2)  Energy (cm**-1)')
+        out.append('C  -------------          --------------  ---------------')
+        for lev in sorted({b[0] for b in blocks} | {b[1] for b in blocks}):
+            out.append('C %5d    1S2 2S%d              (%d)%d( %3.1f)      %10.1f' % (lev, lev % 9 + 1, 2, lev % 4, 0.5, 1000.0 * lev))
+        out.append('C')
+    out.append('C  ISEL  WAVELENGTH      TRANSITION          TYPE')
+    out.append('C  ----  ----------      ----------          ----')
+    for i, (u, l, typ, wl, ne, te, tab) in enumerate(blocks, 1):
+        if fmt == 'h':
+            out.append('C %4d.  %9.1f       N=%2d - N=%2d        %s' % (i, wl, u, l, typ))
+        else:
+            out.append('C %4d.  %9.1f     %3d -%3d          %s' % (i, wl, u, l, typ))
+    out.append('C')
+    _write(path, out)
+
+
+def _write(path, lines):
+    os.makedirs(os.path.dirname(path), exist_ok=True)
+    with open(path, 'w') as f:
+        f.write('\n'.join(lines) + '\n')
+
+
+def synth_from_args(fn, args, path, base):
+    """a synthetic file for `install_<fn>(*args)`; args as install_files passes them (last one: the file path)"""
+    if fn.startswith('adf11'):
+        el = args[2] if fn == 'adf11ccd' else args[0]
+        z = el.atomic_number
+        write_adf11(path, el, [1] if z == 1 else [1, 2], 2 + int(base) % 2, 2, base)
+    elif fn == 'adf12':
+        write_adf12(path, [(3, 2), (8, 7)][: 1 + int(base) % 2], base)
+    elif fn == 'adf15':
+        el, q = args[0], int(args[1])
+        blocks = []
+        for k, (u, l, typ) in enumerate([(3, 2, 'EXCIT'), (3, 2, 'RECOM'), (4, 2, 'EXCIT'), (4, 2, 'CHEXC')][: 2 + int(base) % 3]):
+            blocks.append((u, l, typ, 1000.0 * u + 10 * k, [1e8, 1e9], [1.0, 10.0][: 1 + k % 2],
+                           [[(base + 1 + i + 0.25 * j + k) * 1e-9 for j in range(1 + k % 2)] for i in range(2)]))
+        write_adf15_any(path, el, q, blocks)
+    elif fn == 'adf21':
+        write_adf2x(path, args[2], base)
+    elif fn == 'adf22bmp':
+        write_adf2x(path, args[3], base, neb=2, ndt=2, ntt=2)
+    elif fn == 'adf22bme':
+        write_adf2x(path, args[2], base, neb=2, ndt=3, ntt=2)
+    else:
+        raise ValueError(fn)
+
+
+# --------------------------------------------------------------------------------------------------------------------
 # running a history on the real implementation, with the property oracle (S) and the model lines (K)
 # --------------------------------------------------------------------------------------------------------------------
 MISSING = '<missing>'
+UNREADABLE = '<unreadable: getter raises something else than RuntimeError>'
 
 
 def gettable(keyparts):
@@ -695,6 +915,7 @@ class History:
         self.stats = {}
         self.nops = 0
         self.statuses = []
+        self.unreadable = set()
 
     def count(self, k):
         self.stats[k] = self.stats.get(k, 0) + 1
@@ -738,6 +959,10 @@ class History:
                     self.adopt(k, g, st, res)
 
     def adopt(self, k, gfam, st, res):
+        if st not in ('ok', 'RuntimeError'):
+            self.unreadable.add(k)        # already reported; not reported again while it lasts
+        else:
+            self.unreadable.discard(k)
         if gfam == 'beamCx':
             for kk in [kk for kk in list(self.oracle) + list(self.amb) if kk[:6] == k]:
                 self.oracle.pop(kk, None)
@@ -771,7 +996,7 @@ class History:
         elif op['kind'] == 'add':
             gfam = op['fam']
             objs = [mat(a) for a in op['path']]
-            rate = copy.deepcopy(op['rate'])
+            rate = mat_rate(copy.deepcopy(op['rate']))
             if op.get('numpy') and isinstance(rate, dict):
                 rate = {k: (np.array(v) if isinstance(v, list) else v) for k, v in rate.items()}
             pyfn = GETF[gfam][1]
@@ -796,15 +1021,10 @@ class History:
                 tmp = tempfile.mkdtemp(prefix='c06adas_')
                 write_adf15(os.path.join(tmp, 'synth.dat'), a['blocks'])
                 patch = Patched(None)
-                patch.parsers = False
             else:
                 patch = Patched(lambda name, args, kw: fake_parsed(fn, a))
             with patch as P:
                 if op.get('real_file'):
-                    # undo the parser / locator patches: the real ones are used
-                    for (w, name), v in P.saved.items():
-                        if w == 'i':
-                            setattr(P.install, name, v)
                     call = lambda: install.install_adf15(species(a['element']), a['charge'], 'synth.dat',
                                                           repository_path=rp, adas_path=tmp,
                                                           header_format=a.get('header_format'))
@@ -827,6 +1047,65 @@ class History:
             line = 'ins %s %s %d %s' % (fn, root_tok(root), len(inputs), ' '.join(inputs))
             if rest:
                 line = 'ins-unmodelled-call ' + rest[0][0]
+            for name, rates, _ in calls:
+                tg += targets(repo_paths.UPD[name], rates)
+        elif op['kind'] in ('files', 'populate'):
+            from cherab.openadas.repository import create
+            tmp = tempfile.mkdtemp(prefix='c06adas_')
+            seq = []          # (lean install name) in dispatch order
+            try:
+                with Patched(None) as P:
+                    if op['kind'] == 'files':
+                        pyfn = 'install_files'
+                        config = {}
+                        for i, (fn, a) in enumerate(op['entries']):
+                            rel = 'd%d/f%d.dat' % (i % 3, i)
+                            args = install_args(fn, a, rel)
+                            synth_from_args(fn, args, os.path.join(tmp, rel), a.get('base', 1.0) + i)
+                            key = fn.upper() if op.get('upper') and i % 2 else fn
+                            config.setdefault(key, []).append(tuple(args))
+                        config = {k: tuple(v) for k, v in config.items()}
+                        seq = [k.lower() for k, v in config.items() for _ in v]
+                        call = lambda: install.install_files(config, download=False, repository_path=rp, adas_path=tmp)
+                        status = _status(call)
+                    else:
+                        pyfn = 'populate'
+                        real_files = create.install_files
+
+                        def synth_then_install(configuration, download=False, repository_path=None, adas_path=None):
+                            n = 0
+                            for key, entries in configuration.items():
+                                for args in entries:
+                                    n += 1
+                                    seq.append(key.lower())
+                                    synth_from_args(key.lower(), list(args), os.path.join(adas_path, args[-1]), float(n % 9))
+                            return real_files(configuration, download=download, repository_path=repository_path, adas_path=adas_path)
+                        create.install_files = synth_then_install
+                        try:
+                            status = _status(lambda: create.populate(download=False, repository_path=rp, adas_path=tmp))
+                        finally:
+                            create.install_files = real_files
+                    calls = list(P.calls)
+            finally:
+                shutil.rmtree(tmp, ignore_errors=True)
+            rest = list(calls)
+            parts = []
+            for fn in seq:
+                inputs = []
+                for c in self.facts['installCalls'].get(fn, []):
+                    # the calls of one install_* are consecutive: take the next recorded call if it is this one
+                    if rest and rest[0][0] == c[2]:
+                        inputs.append(input_tok(c[0], rest.pop(0)[1]))
+                    else:
+                        inputs.append('0')
+                parts.append('%s %d %s' % (fn, len(inputs), ' '.join(inputs)))
+            if op['kind'] == 'files':
+                line = 'insfiles %s %d %s' % (root_tok(root), len(parts), ' '.join(parts))
+            else:
+                wl = input_tok('wavelength', rest.pop(0)[1]) if rest and rest[0][0] == 'update_wavelengths' else '0'
+                line = 'populate %s %d %s %s' % (root_tok(root), len(parts), ' '.join(parts), wl)
+            if rest:
+                line = 'unmodelled-call ' + rest[0][0]
             for name, rates, _ in calls:
                 tg += targets(repo_paths.UPD[name], rates)
         else:
@@ -854,6 +1133,12 @@ class History:
         for p in changed:
             self.lines.append('cat ' + hexs(p))
             self.obs.append(('cat', file_canon(p, after[p][0] if p in after else None), pyfn))
+        # S0: every file of the repository is valid JSON after the call, accepted or rejected
+        badjson = [p for p in changed if p in after and file_canon(p, after[p][0]) == 'unparsable']
+        if badjson:
+            self.failures.append(dict(signature='C06:%s:file-left-invalid-json:%s' % (pyfn, bad_label(op)), at=at,
+                                      description='%s -> %s left %s truncated / not valid JSON: keys stored in it are unreadable'
+                                      % (pyfn, status, badjson[:2])))
         # S1: every file created/modified lies under the repository path that was passed
         allowed = (root + '/') if root is not None else '~/.cherab/openadas/repository/'
         stray = [p for p in changed if not p.startswith(allowed)]
@@ -873,13 +1158,19 @@ class History:
             own.append(k)
             layout = UPD[GETF[gfam][2]]['rate']
             try:
-                new = stored(rate, layout)
+                new = stored(rate, layout, whole=gfam in ('beamStopping', 'beamPopulation'))
             except Exception:  # noqa  (malformed rate: nothing can have been stored for it)
                 new = None
             if status == 'ok':
                 if new is not None:
                     self.oracle[k] = new
-                self.amb.pop(k, None)
+                    self.amb.pop(k, None)
+                elif k[:6] in self.tracked or k in self.tracked:
+                    # accepted although the oracle cannot say what the conversions yield: unjudgeable, adopt
+                    self.count('accepted-unpredictable-value-adopted')
+                    kk = k[:6] if gfam == 'beamCx' else k
+                    g, kroot, gp = self.tracked[kk]
+                    self.adopt(kk, g, *real_get(repository, g, gp, world.path(kroot)))
             else:
                 al = self.amb.get(k, [self.oracle.get(k, MISSING)])
                 if new is not None and new not in al:
@@ -919,6 +1210,8 @@ class History:
 
     def judge(self, k, gfam, st, res):
         if st not in ('ok', 'RuntimeError'):
+            if k in self.unreadable:
+                return None
             return 'getter raised %s (%s)' % (st, res)
         if gfam != 'beamCx':
             got = res[''] if st == 'ok' else MISSING
@@ -961,6 +1254,8 @@ class History:
             sym = 'other-key-changed' if self.allowed(k) != [MISSING] else 'unwritten-key-readable'
         elif status != 'ok':
             sym = 'rejected-update-loses-key' if 'RuntimeError' in why else 'rejected-update-corrupts-key'
+        if 'getter raised' in why:
+            sym = 'stored-key-unreadable-after-%s-call' % ('accepted' if status == 'ok' else 'rejected')
         return dict(signature='C06:%s:%s' % (pyfn, sym), at=at, own=bool(own),
                     description='after %s -> %s: %s(%s) : %s' % (pyfn, status, GETF[gfam][0],
                                                                ', '.join(str(okey(o)) for o in gp), why))
@@ -972,6 +1267,13 @@ MIXED_CASE_SYM = 'mixed-case-class-key-stores-lower-case-entry-data'
 def mixed_case_classes(op):
     cl = [p[0][1] for p, _ in op.get('entries', []) if p and p[0][0] == 'C']
     return any(c != c.lower() and c.lower() in cl for c in cl)
+
+
+def bad_label(op):
+    b = op.get('bad')
+    if isinstance(b, list):
+        b = next((x for x in b if x), None)
+    return str(b or 'well-formed-input')
 
 
 def _status(f):
@@ -1150,10 +1452,21 @@ def gen_history(rng, length, default_root=False, pbad=0.15):
                 entries.append((path[:len(UPD[ufam]['sig'])], {}))
                 bads.append('empty')
             ops.append(dict(kind='upd', fam=ufam, root=root, entries=entries, bad=bads, positional=rng.random() < 0.3))
-        else:
+        elif k < 0.96:
             op = gen_install(rng)
             op['root'] = root
             ops.append(op)
+        else:
+            ents = []
+            for _ in range(rng.randint(1, 4)):
+                o = gen_install(rng)
+                a = dict(o['parsed'])
+                if o['fn'] == 'adf15' and a['element'] != 'hydrogen' and species(a['element']).atomic_number - a['charge'] != 1:
+                    a['charge'] = species(a['element']).atomic_number - 1
+                if o['fn'].startswith('adf11') and a['element'] in ('deuterium', 'tritium', 'protium', 'helium3', 'carbon13'):
+                    a['element'] = 'carbon'            # ADF11 headers name elements
+                ents.append((o['fn'], a))
+            ops.append(dict(kind='files', root=root, entries=ents, upper=rng.random() < 0.3))
     probes = []
     for _ in range(4):
         gfam = rng.choice(sorted(GETF))
@@ -1163,30 +1476,34 @@ def gen_history(rng, length, default_root=False, pbad=0.15):
     return ops, probes
 
 
+def path_for(ufam, q, t, m=1, cls='excitation', sp=('E', 'carbon'), qkind=None):
+    D = ['E', 'deuterium']
+    sp = list(sp)
+    u = UPD[ufam]
+    out = []
+    syms = iter([D, sp] if u['sig'].count('sym') == 2 else [sp])
+    for i, k in enumerate(u['sig'] + u['inner']):
+        if k == 'sym':
+            out.append(next(syms))
+        elif k == 'str':
+            out.append(['C', cls])
+        elif k == 'tr':
+            out.append(['T'] + list(t))
+        elif METASTABLE_POS.get(ufam) == i:
+            out.append(['I', m])
+        elif CHARGE_POS[ufam] == i:
+            out.append(['I', q] + ([qkind] if qkind else []))
+        else:
+            out.append(['I', 0])
+    return out
+
+
+
 def targeted_histories():
     """deterministic histories: every add_*, update_*, install_* once with valid data, overwrite, spelling variants of a
     transition, rejected updates, the default root"""
     hs = []
     C, NE, D, H = ['E', 'carbon'], ['E', 'neon'], ['E', 'deuterium'], ['E', 'hydrogen']
-
-    def path_for(ufam, q, t, m=1, cls='excitation', sp=C):
-        u = UPD[ufam]
-        out = []
-        syms = iter([D, sp] if u['sig'].count('sym') == 2 else [sp])
-        for i, k in enumerate(u['sig'] + u['inner']):
-            if k == 'sym':
-                out.append(next(syms))
-            elif k == 'str':
-                out.append(['C', cls])
-            elif k == 'tr':
-                out.append(['T'] + list(t))
-            elif METASTABLE_POS.get(ufam) == i:
-                out.append(['I', m])
-            elif CHARGE_POS[ufam] == i:
-                out.append(['I', q])
-            else:
-                out.append(['I', 0])
-        return out
 
     for gfam in sorted(GETF):
         ufam = GETF[gfam][2]
@@ -1251,6 +1568,17 @@ def targeted_histories():
            dict(kind='upd', fam='wavelength', root='A', entries=[([C, ['I', 1]], {})]),
            dict(kind='upd', fam='pecThermalCx', root='A', entries=[([H, ['I', 1], C, ['I', 1], ['T', 3, 2]], mk_rate('pec3', 1.0, (1, 1, 1)))])]
     hs.append(('rejected', rej, [('wavelength', 'A', [C, ['I', 1], ['T', 3, 2]])]))
+    # install_files: every dispatch key (also upper-case keys), populate-style tuples of several entries, every root;
+    # repository.populate itself -- synthetic files, real parsers
+    a0 = dict(element='carbon', donor='deuterium', donor_charge=0, base=1.0, metastable=1, transition=[3, 2], charge=3)
+    ents = [(fn, dict(a0, charge=(5 if fn == 'adf15' else 3))) for fn in sorted(INSTALLS)]
+    more = [('adf15', dict(a0, element='hydrogen', charge=0)), ('adf15', dict(a0, charge=1)), ('adf11scd', dict(a0, element='neon')),
+            ('adf22bmp', dict(a0, metastable=2, element='helium', charge=2)), ('adf12', dict(a0, metastable=2, charge=6)),
+            ('adf21', dict(a0, element='neon', charge=10)), ('adf22bme', dict(a0, element='helium', charge=2, transition=[4, 2]))]
+    hs.append(('install_files:every-key', [dict(kind='files', root='A', entries=ents),
+                                           dict(kind='files', root='B', entries=ents + more, upper=True),
+                                           dict(kind='files', root=None, entries=more)], []))
+    hs.append(('populate', [dict(kind='populate', root='A')], []))
     # one update_pec_rates call with both spellings of a class key
     T3 = ['T', 3, 2]
     hs.append(('pec-mixed-case-class', [
@@ -1262,6 +1590,134 @@ def targeted_histories():
                                                        ([['C', 'excitation'], ['E', 'protium'], ['I', 1], T3], mk_rate('pec', 6.0, (1, 2))),
                                                        ([['C', 'EXCITATION'], ['E', 'protium'], ['I', 1], T3], mk_rate('pec', 7.0, (2, 1)))])],
         []))
+    return hs
+
+
+# --------------------------------------------------------------------------------------------------------------------
+# rejected-write stream: a populated file, then writes the code may reject (early or late) -- every family
+# --------------------------------------------------------------------------------------------------------------------
+INF, NAN = float('inf'), float('nan')
+
+
+def _like(v, fill):
+    """same nesting as v with every leaf replaced by fill(i)"""
+    c = [0]
+
+    def go(x):
+        if isinstance(x, list):
+            return [go(y) for y in x]
+        c[0] += 1
+        return fill(c[0])
+    return go(v)
+
+
+def array_variants(v):
+    """(label, replacement) for an array-valued field whose well-formed value is the nested list v"""
+    flat = np.array(v, np.float64)
+    first = lambda x: _like(v, lambda i: x if i == 1 else float(i))
+    out = [('nonfinite-inf', first(INF)), ('nonfinite-neg-inf', first(-INF)), ('nonfinite-nan', first(NAN)),
+           ('string-elements', _like(v, lambda i: 'a')), ('numeric-string-elements', _like(v, lambda i: '%d.5' % i)),
+           ('none-element', first(None)), ('bool-elements', _like(v, lambda i: True)),
+           ('object-array', {'__': 'obj', 'v': _like(v, lambda i: 'x' if i == 1 else i)}),
+           ('complex-elements', {'__': 'cplx', 'v': [[1.0, 2.0]] * len(flat.reshape(-1))}),
+           ('float32-array', {'__': 'nd', 'v': _like(v, lambda i: 0.1 * i), 'dtype': 'float32'}),
+           ('int64-array', {'__': 'nd', 'v': _like(v, lambda i: i), 'dtype': 'int64'}),
+           ('zero-d-array', {'__': 'nd0', 'v': 2.0}), ('none-instead-of-array', None), ('string-instead-of-array', 'abc'),
+           ('scalar-instead-of-array', 3.0), ('empty-array', [])]
+    if flat.ndim == 1 and flat.size >= 1:
+        out.append(('ragged', [[1.0], [2.0, 3.0]]))
+        out.append(('one-longer', list(flat.tolist()) + [9.0]))
+        out.append(('two-dimensional', [flat.tolist()]))
+    else:
+        out.append(('ragged', [[1.0], [2.0, 3.0]]))
+        out.append(('extra-row', (flat.tolist() + flat.tolist()[:1]) if flat.ndim >= 1 and flat.size else [[1.0]]))
+        out.append(('flattened', flat.reshape(-1).tolist()))
+    return out
+
+
+SCALAR_VARIANTS = [('float32-scalar', {'__': 'f32', 'v': 0.1}), ('int64-scalar', {'__': 'i64', 'v': 3}),
+                   ('zero-d-array-scalar', {'__': 'nd0', 'v': 2.5}), ('numeric-string-scalar', '1.5'),
+                   ('string-scalar', 'abc'), ('none-scalar', None), ('list-scalar', [1.0]), ('bool-scalar', True),
+                   ('int-scalar', 7), ('inf-scalar', INF), ('nan-scalar', NAN), ('one-element-array-scalar', {'__': 'nd', 'v': [4.0], 'dtype': 'float64'})]
+
+# which fields of each layout are varied (first 1-D coordinate, the dependent table, one more) / which scalar
+VARIED = {'adf11': (['ne', 'rates', 'te'], []), 'pec': (['te', 'rate', 'ne'], []), 'pec3': (['td', 'rate'], []),
+          'bcx': (['eb', 'qz', 'qti'], ['qref']), 'beam': (['e', 'sen', 'st'], ['tref', 'sref']), 'wl': ([], [None])}
+
+
+def family_keys(gfam):
+    """three keys that live in one file of the family (where a file holds several), one key in another file"""
+    ufam = GETF[gfam][2]
+    cls = PEC_CLASS.get(gfam, 'excitation')
+    inner = UPD[ufam]['inner']
+    if inner == ['num']:
+        ks = [path_for(ufam, q, (3, 2), cls=cls) for q in (1, 2, 3)]
+    elif inner == ['tr']:
+        ks = [path_for(ufam, 2, t, cls=cls) for t in ((3, 2), (4, 2), ('2S', '1s'))]
+    elif inner == ['tr', 'num']:
+        ks = [path_for(ufam, 2, (3, 2), m=1), path_for(ufam, 2, (3, 2), m=2), path_for(ufam, 2, (4, 2), m=1)]
+    else:
+        ks = [path_for(ufam, 2, (3, 2), m=1), path_for(ufam, 3, (3, 2), m=1), path_for(ufam, 2, (3, 2), m=2)]
+    other = path_for(ufam, 1, (5, 4), m=3, cls=cls, sp=('E', 'neon'))
+    return ks, other
+
+
+def rejected_write_histories():
+    """-> [(label, ops, probes, modelled)]"""
+    hs = []
+    for gfam in sorted(GETF):
+        ufam = GETF[gfam][2]
+        lay = UPD[ufam]['rate']
+        ks, other = family_keys(gfam)
+        whole = not UPD[ufam]['inner']
+        pre = [dict(kind='upd', fam=ufam, root='A', entries=[(k, mk_rate(lay, 1.0 + i, (2, 2, 2))) for i, k in enumerate(ks)] +
+                    [(other, mk_rate(lay, 5.0, (1, 1, 1)))])]
+        base = mk_rate(lay, 7.0, (2, 3, 2))
+        arrays, scalars = VARIED[lay]
+        attempts = []
+        for f in arrays:
+            for label, val in array_variants(base[f]):
+                attempts.append(('%s-in-%s' % (label, f), dict(base, **{f: val})))
+        for f in scalars:
+            for label, val in SCALAR_VARIANTS:
+                attempts.append(('%s-in-%s' % (label, f or 'wavelength'), val if f is None else dict(base, **{f: val})))
+        if lay != 'wl':
+            attempts.append(('missing-field', {k: v for k, v in base.items() if k != list(base)[-1]}))
+        ops = list(pre)
+        for i, (label, rate) in enumerate(attempts):
+            target = ks[1] if i % 3 else (path_for(ufam, 2, (6, 5), m=4, cls=PEC_CLASS.get(gfam, 'excitation')) if not whole else ks[1])
+            if i % 2:
+                ops.append(dict(kind='add', fam=gfam, root='A', path=target, rate=rate, bad=label))
+            else:
+                # inside an update call, after a valid entry for another key of the same file
+                first = (ks[2], mk_rate(lay, 20.0 + i, (1, 1, 1)))
+                ops.append(dict(kind='upd', fam=ufam, root='A', entries=[first, (target, rate)], bad=[None, label]))
+        # NumPy integers as charge (every family) -- accepted, same key as the Python int
+        ops.append(dict(kind='add', fam=gfam, root='A', path=[(a + ['i64'] if a[0] == 'I' and i == CHARGE_POS[ufam] else a)
+                                                              for i, a in enumerate(ks[0])], rate=mk_rate(lay, 40.0, (1, 1, 1)),
+                        bad='numpy-integer-charge'))
+        hs.append(('rejected-write:' + gfam, ops, [], True))
+        # --- inputs the model does not represent: checked by the oracle only -----------------------------------------
+        sops = list(pre)
+        if lay != 'wl':
+            sops.append(dict(kind='add', fam=gfam, root='A', path=ks[1], rate=[1.0, 2.0], bad='not-a-dictionary'))
+        if whole:
+            sops.append(dict(kind='add', fam=gfam, root='A', path=ks[0], rate=dict(base, comment='text', extra=[1, 2]),
+                             bad='serialisable-extra-entry'))
+            sops.append(dict(kind='add', fam=gfam, root='A', path=ks[0], rate=dict(base, extra={'__': 'set', 'v': [1, 2]}),
+                             bad='unserialisable-extra-entry'))
+            sops.append(dict(kind='add', fam=gfam, root='A', path=ks[1], rate=dict(base, extra={'__': 'nd', 'v': [1.0], 'dtype': 'float64'}),
+                             bad='unserialisable-extra-entry'))
+        if ufam in METASTABLE_POS:
+            mp = METASTABLE_POS[ufam]
+            # an existing metastable (the stored int key is kept) and a new one
+            sops.append(dict(kind='add', fam=gfam, root='A', path=[(a + ['i64'] if i == mp else a) for i, a in enumerate(ks[1])],
+                             rate=mk_rate(lay, 41.0, (1, 1, 1)), bad='numpy-integer-metastable-existing'))
+            sops.append(dict(kind='add', fam=gfam, root='A', path=[(['I', 7, 'i64'] if i == mp else a) for i, a in enumerate(ks[1])],
+                             rate=mk_rate(lay, 41.5, (1, 1, 1)), bad='numpy-integer-metastable'))
+        if len(sops) > len(pre):
+            sops.append(dict(kind='add', fam=gfam, root='A', path=ks[2], rate=mk_rate(lay, 42.0, (1, 1, 1))))
+            hs.append(('rejected-write-unmodelled:' + gfam, sops, [], False))
     return hs
 
 
@@ -1323,20 +1779,27 @@ def shrink(facts, ops, probes, sig):
 def run(ctx):
     prepare_home()
     rng = ctx.rng
-    ctx.rule = ('histories (<= 40 calls) of the 14 add_*, 13 update_*, 11 install_* functions over 12 elements/isotopes, two '
-                'repository roots or the default root, int/str transitions incl. spelling variants, table shapes from 1x1, '
-                '15% malformed calls; distinct = (function, outcome, malformation kind, number of entries); after each call: '
-                'full file listing (roots and $HOME/.cherab), content of every changed file, get_* of the written keys and '
-                'of a sample of the other tracked keys, all tracked keys every 10th call and at the end')
+    ctx.rule = ('histories (<= 40 calls) of the 14 add_*, 13 update_*, 11 install_* functions, install_files and populate over 12 '
+                'elements/isotopes, two repository roots or the default root, int/str transitions incl. spelling variants, class-key '
+                'spelling variants, table shapes from 1x1, values incl. inf/nan/-0.0/subnormals, 15% malformed calls; a rejected-write '
+                'stream per family (a populated file, then ~60 writes with non-finite values, wrong dtypes, 0-d / ragged / object / '
+                'complex arrays, inconsistent shapes, missing fields, NumPy scalars, unserialisable extras); install_files with every '
+                'dispatch key and populate on synthetic ADF files through the real parsers; distinct = (function, outcome, '
+                'malformation kind, number of entries); after each call: full file listing (roots and $HOME/.cherab, content+mtime), '
+                'JSON validity and content of every changed file, get_* of the written keys and of sampled/all other tracked keys '
+                '(all of them every 10th call, at the end, and after every call of the targeted and rejected-write streams)')
     ctx.trusted += ['translator harness/translators/repo_paths.py (syntactic; its tables are interpreted by the model and '
                     'compared with the running code in every history)',
-                    'python json float round trip (repr/shortest, exact for finite doubles), os.path.join, os.makedirs',
-                    'install_* are exercised with stand-in parser outputs (parsers are property C08) and with one '
-                    'synthesised ADF15 file through the real parser; download=False (no _download_cache)']
-    ctx.assumptions += ['finite float values (json would write NaN/Infinity tokens)', 'ASCII symbols and level strings '
-                        '(model lower-cases ASCII only)', 'integer charges and metastables', 'species are registry '
+                    'python json float round trip (repr/shortest, exact for finite doubles; NaN/Infinity tokens), os.path.join, os.makedirs',
+                    'np.array(x, float64) and float(x): their outcome on every object of a rate dictionary is computed by the harness '
+                    'with the real NumPy and handed to the model (the model decides where the conversion is requested)',
+                    'install_* are exercised with stand-in parser outputs (parsers are property C08), and -- install_adf15, '
+                    'install_files, populate -- with synthesised ADF files through the real parsers; download=False (no _download_cache)']
+    ctx.assumptions += ['ASCII symbols and level strings (model lower-cases ASCII only)', 'species are registry '
                         'Elements/Isotopes (unique symbols up to case: checked on every run) or a plain string',
-                        'crash-atomicity of open(path, "w") is outside the property']
+                        'outside the model, covered by the oracle only: rate dictionaries that are not dictionaries or carry extra '
+                        'entries (beam stopping/population store them verbatim), NumPy-integer metastables, level strings '
+                        'containing the separator', 'crash-atomicity of open(path, "w") is outside the property']
     facts, _ = repo_paths.generate()
     ctx.extra['translator_notes'] = facts['notes']
     # generic theory (any tables), then the obligations on the tables generated from the current source, one module each
@@ -1357,15 +1820,15 @@ def run(ctx):
     runs = []        # (label, History)
     reported = set()
 
-    def do(label, ops, probes, sig_override=None, max_other=1000, model=True):
-        h = run_history(facts, ops, probes, rng=rng, max_other=max_other)
+    def do(label, ops, probes, sig_override=None, max_other=1000, model=True, full=False):
+        h = run_history(facts, ops, probes, rng=rng, max_other=max_other, full=full)
         if model:
             runs.append((label, h))
         for k, v in h.stats.items():
             ctx.count(k, v)
         for op, st in zip(ops[:h.nops], h.statuses):
             b = op.get('bad')
-            fn = op.get('fn') or op['fam']
+            fn = op.get('fn') or op.get('fam') or op['kind']
             ctx.case(key=(op['kind'], fn, st, str(b), len(op.get('entries', [])), op['root'] is None),
                      sample=dict(history=label, op=_brief(op)) if (len(ctx.samples) < 3 or rng.random() < 0.002) else None)
         fails = h.failures
@@ -1392,6 +1855,8 @@ def run(ctx):
     # 1. targeted
     for label, ops, probes in targeted_histories():
         do(label, ops, probes)
+    for label, ops, probes, modelled in rejected_write_histories():
+        do(label, ops, probes, model=modelled, full=True)
     # S only: level strings containing the separator are outside what the model is tied on
     do('separator', SEPARATOR_HISTORY, [], sig_override='C06:encode_transition:separator-in-level-collides', model=False)
     # 2. random interleavings
